@@ -132,7 +132,8 @@ def meat(index, rep):
     call = [c for c in walk_no_nested(g) if isinstance(c, ast.Call) and dotted(c.func) == "self.calculate_meat_after_distribution_waste"]
     ok = len(call) == 1
     if ok:
-        kw = {k.arg: norm_src(k.value) for k in call[0].keywords}
+        from .core import bind_args as _ba5
+        kw = {k_: norm_src(v_) for k_, v_ in _ba5(call[0], calc).items()}
         pairs = {"init_chickens_culled": "chickens_culled", "init_pigs_culled": "pigs_culled",
                  "init_small_animals_nonchicken_culled": "small_animals_nonchicken_culled",
                  "init_medium_animals_nonpigs_culled": "medium_animals_nonpig_culled", "init_large_animals_culled": "large_animals_culled"}
@@ -141,7 +142,7 @@ def meat(index, rep):
             if isinstance(f, ast.For) and call[0] in list(ast.walk(f)):
                 loopvar = norm_src(f.target)
                 rng = norm_src(f.iter)
-        ok = loopvar is not None and all(kw.get(a) == f"{b}[{loopvar}]" for a, b in pairs.items()) and rng.startswith("range(0, len(")
+        ok = loopvar is not None and all(kw.get(a) == f"{b}[{loopvar}]" for a, b in pairs.items()) and rng.startswith("range(len(")
         st = [s for s in walk_no_nested(g) if isinstance(s, ast.Assign) and isinstance(s.targets[0], ast.Subscript) and isinstance(s.targets[0].value, ast.Name)
               and norm_src(s.targets[0].slice) == loopvar]
         retn = [norm_src(r.value) for r in g.body if isinstance(r, ast.Return)]
@@ -248,8 +249,11 @@ def klass(index, rep):
         callee = index.func(MD, "MeatAndDairy.get_max_slaughter_monthly_after_distribution_waste")
         order = [a.arg for a in callee.args.args if a.arg.endswith("_culled")]
         st = _slaughter_tags(ev)
-        hit = [order.index(k) for k, v in calls[0].kwargs.items() if k in order and (tags(v) & st)]
-        zero = [k for k, v in calls[0].kwargs.items() if k in order and not (tags(v) & st)]
+        params = [a.arg for a in callee.args.args if a.arg not in ("self", "cls")]
+        bound = dict(zip(params, calls[0].args))          # by parameter, however the call spells its arguments
+        bound.update(calls[0].kwargs or {})
+        hit = [order.index(k) for k, v in bound.items() if k in order and (tags(v) & st)]
+        zero = [k for k, v in bound.items() if k in order and not (tags(v) & st)]
         return hit[0] if len(hit) == 1 and len(zero) == 4 and len(order) == 5 else None
 
     def lane_yield(ev, env, it, fn):
@@ -276,19 +280,34 @@ def klass(index, rep):
                       f"{what} for a {size} {atype if atype != 'goat' else 'animal of another species'} goes to {got}, expected the {LANE_NAMES[want]} class "
                       "(chicken, pig by species; everything else by size) - the three classification chains must agree", loc=loc(rel, fn))
     cm = index.func(PARAMS, "Parameters.calculate_meat_from_feed_results")
-    unp = [s for s in cm.body if isinstance(s, ast.Assign) and isinstance(s.value, ast.Call) and dotted(s.value.func) == "feed_meat_object.get_meat_produced"]
-    if len(unp) != 1:
-        raise AnalysisError("calculate_meat_from_feed_results: get_meat_produced unpacking not found")
-    names = [norm_src(e) for e in unp[0].targets[0].elts]
+    # result k of the herd object's get_meat_produced() reaches the k-th slaughter parameter of both MeatAndDairy routines (as it is /
+    # summed over the months) - whether unpacked into five names, kept as one tuple and spread with *, or passed by keyword
+    from .core import expand_star_args, bind_args as _bacm
+    inl_k = Inliner(cm)
+    gmp = index.func(ANIM, "CalculateFeedAndMeat.get_meat_produced")
+    gr = [r for r in walk_no_nested(gmp) if isinstance(r, ast.Return)]
+    n_res = len(gr[-1].value.elts) if gr and isinstance(gr[-1].value, ast.Tuple) else None
+    hp = [a.arg for a in cm.args.args if "feed_meat" in a.arg]
+    if n_res != 5 or len(hp) != 1:
+        raise AnalysisError("calculate_meat_from_feed_results: get_meat_produced() no longer returns the five slaughter arrays of the herd object parameter")
+    src_call = f"{hp[0]}.get_meat_produced()"
     kws = ["chickens_culled", "pigs_culled", "small_animals_nonchicken_culled", "medium_animals_nonpig_culled", "large_animals_culled"]
     kws2 = [l[0] for l in LANES]
     for c in walk_no_nested(cm):
         if isinstance(c, ast.Call) and isinstance(c.func, ast.Attribute) and c.func.attr in (
                 "get_max_slaughter_monthly_after_distribution_waste", "calculate_meat_after_distribution_waste"):
-            kw = {k.arg: norm_src(k.value) for k in c.keywords}
+            callee = index.func(MD, "MeatAndDairy." + c.func.attr)
+            pos = expand_star_args(c, inl_k, lambda t: 5 if t == src_call else None)
+            if pos is None:
+                kw = {}
+            else:
+                import copy as _copy
+                flat = _copy.copy(c)
+                flat.args = pos
+                kw = {k_: norm_src(inl_k.expr(v_)) for k_, v_ in _bacm(flat, callee).items()}
             keys = kws if c.func.attr.startswith("get_max") else kws2
             got = [kw.get(k, "?") for k in keys]
-            wantv = names if c.func.attr.startswith("get_max") else [f"np.sum({n})" for n in names]
+            wantv = [f"{src_call}[{i}]" for i in range(5)] if c.func.attr.startswith("get_max") else [f"np.sum({src_call}[{i}])" for i in range(5)]
             rep.check(got == wantv, rule, f"calculate_meat_from_feed_results:{c.func.attr}:slot-binding",
                       f"the five slaughter arrays (by return position) do not reach the like-positioned keyword parameters: {got}", loc=loc(PARAMS, c))
     # the monthly series and its running total are the same object, stored for the optimiser
@@ -354,7 +373,7 @@ def milk(index, rep):
     it2.call_hook = hook2
     pop = Rat.atom(("pop",))
     from .core import param_role as _pr
-    roles = {"md": _pr(c, r"(\w+)\.get_milk_produced_postwaste\("), "tc": _pr(c, r"(\w+)\['milk_kcals'\]"),
+    roles = {"md": _pr(c, r"(\w+)\.get_milk_produced_postwaste\("),
              "ci": _pr(c, r"(\w+)\['MILK_YIELD_KG_PER_MILK_BEARING_ANIMAL_PER_YEAR'\]")}
     cparams = [a.arg for a in c.args.args if a.arg != "self"]
     if None in roles.values():
@@ -366,14 +385,22 @@ def milk(index, rep):
     popp = [p_ for p_ in rest if _re.search(rf"\b{p_}\b\s*\*|\*\s*\b{p_}\b", norm_src(c))]
     if len(popp) != 1:
         raise AnalysisError(f"calculate_non_meat_and_dairy_from_feed_results: herd-size parameter not identified ({rest})")
-    kwargs2 = {roles["ci"]: Path(("ci",)), roles["tc"]: tc, popp[0]: pop, roles["md"]: Path(("md",))}
+    # every other parameter is a dictionary of its own: the one that receives "milk_kcals" is the monthly-constants hand-off
+    kwargs2 = {roles["ci"]: Path(("ci",)), popp[0]: pop, roles["md"]: Path(("md",))}
+    dicts = {}
     for p_ in cparams:
-        kwargs2.setdefault(p_, co if p_ != popp[0] else pop)
+        if p_ not in kwargs2:
+            dicts[p_] = PDict()
+            kwargs2[p_] = dicts[p_]
     try:
         it2.call_function(c, [], kwargs2, Obj(pcls, {}, "self"))
     except Exception as e:
         raise AnalysisError(f"calculate_non_meat_and_dairy_from_feed_results outside the fragment: {e!r}")
     MILK_POP_PARAM[0] = popp[0]
+    holders = [d_ for d_ in dicts.values() if "milk_kcals" in d_.d]
+    if len(holders) != 1:
+        raise AnalysisError("calculate_non_meat_and_dairy_from_feed_results: no (or more than one) dictionary receives 'milk_kcals'")
+    tc = holders[0]
     y = it2.to_rat(Path(("ci", "MILK_YIELD_KG_PER_MILK_BEARING_ANIMAL_PER_YEAR")))
     want_arg = pop * y / Rat.const(12) / Rat.const(1000)
     rep.check(tc.d.get("milk_kcals") == Rat.atom(("MILKFN", str(want_arg))), rule, "milk-tonnes = herd x yield / 12 / 1000",
@@ -440,7 +467,8 @@ def feedge(index, rep, flow):
     imf = index.func(PARAMS, "Parameters.init_meat_and_dairy_and_feed_from_breeding")
     herd_role = _pr2(imf, r"(\w+)\.feed_used\b")
     herd_arg = _ba(call[0], imf).get(herd_role) if len(call) == 1 and herd_role else None
-    alts = inl.alternatives(herd_arg) if herd_arg is not None else None
+    from .core import through_helpers as _th5
+    alts = _th5(index.methods(PARAMS, "Parameters"), inl, herd_arg) if herd_arg is not None else None   # a construction helper is looked through
     herd_src = sorted({("CalculateFeedAndMeat" if a.startswith("CalculateFeedAndMeat(") else a) for a in (alts or ["?"])})
     r1 = [p_ for p_ in params if "feed_meat_object" in p_]
     rep.check(len(r1) == 1 and herd_src == sorted(["CalculateFeedAndMeat", r1[0]]), rule, "round3:herd-object",
@@ -455,10 +483,11 @@ def feedge(index, rep, flow):
 def zero(index, rep, flow):
     rule = "C05.ZERO"
     fn = index.func(PARAMS, "Parameters.init_meat_and_dairy_and_feed_from_breeding_and_subtract_feed_biofuels_round1")
-    herd = [c for c in walk_no_nested(fn) if isinstance(c, ast.Call) and dotted(c.func) == "CalculateFeedAndMeat"]
-    if len(herd) != 1:
+    from .c03 import herd_feeds
+    hf = herd_feeds(index, fn)
+    if len(hf) != 1:
         raise AnalysisError("round 1: herd construction not found")
-    af = [k.value for k in herd[0].keywords if k.arg == "available_feed"]
+    herd, af = [hf[0][0]], [hf[0][1]]
     # what the herd is offered, evaluated (a Food(...) of np.zeros series, however it is built - literal or through a helper)
     ok = bool(af)
     if ok:
